@@ -18,7 +18,7 @@ SUBST = {"RxSeq": "RxSeq8", "MetSeq": "MetSeq4", "GeneSeq": "GeneSeq4", "GrpSeq"
 PROFILE = {"C01": ["fullbounds", "fulldet0", "edit"], "C02": ["fullcopy", "fullren", "edit"], "C03": ["full", "fullmid", "fullbounds", "fulldet", "fullobjp", "fullobjc", "fullfail", "ctx"], "C07": ["fullko", "ko"], "C12": ["fullcopy", "copy"],
            "C13": ["fullanalyze", "analyze"], "C10": ["fulliox", "io"], "C11": ["fullio", "io"]}
 TIERS = {
-    "quick": {"full": (0, 2), "fullmid": (0, 0), "fullbounds": (0, 3), "fullio": (0, 3), "fulliox": (0, 3), "fullren": (0, 3), "fullfail": (0, 3), "fullcopy": (0, 2), "fullanalyze": (0, 3), "fulldet": (0, 3), "fullko": (0, 3), "fulldet0": (0, 3), "fullobjp": (0, 3), "fullobjc": (0, 3), "edit": (700, 14), "ctx": (300, 16), "ko": (700, 12), "copy": (600, 14), "analyze": (220, 9),
+    "quick": {"full": (0, 2), "fullmid": (0, 0), "fullbounds": (0, 3), "fullio": (0, 3), "fulliox": (0, 3), "fullren": (0, 3), "fullfail": (0, 3), "fullcopy": (0, 2), "fullanalyze": (0, 3), "fulldet": (0, 3), "fullko": (0, 3), "fulldet0": (0, 3), "fullobjp": (0, 3), "fullobjc": (0, 0), "edit": (700, 14), "ctx": (250, 16), "ko": (700, 12), "copy": (600, 14), "analyze": (220, 9),
               "io": (300, 12), "palettes": 2},
     "thorough": {"full": (0, 2), "fullmid": (0, 3), "fullbounds": (0, 4), "fullio": (0, 4), "fulliox": (0, 4), "fullren": (0, 4), "fullfail": (0, 4), "fullcopy": (0, 3), "fullanalyze": (0, 4), "fulldet": (0, 4), "fullko": (0, 4), "fulldet0": (0, 5), "fullobjp": (0, 4), "fullobjc": (0, 4), "edit": (5000, 18), "ctx": (4000, 20),
                  "ko": (5000, 14), "copy": (6000, 16), "analyze": (1200, 10), "io": (3000, 12), "palettes": 3},
@@ -208,7 +208,7 @@ def run(prop, tier, replay=None):
         if only and profile != only:
             continue
         nwalks, depth = T[profile]
-        if profile == "fullmid" and depth == 0:
+        if profile in ("fullmid", "fullobjc") and depth == 0:       # thorough tier only
             continue
         if profile in ("full", "fullmid", "fullbounds", "fullio", "fullcopy", "fullanalyze", "fulldet", "fullko", "fulldet0", "fullobjp", "fullobjc", "fulliox", "fullren", "fullfail"):
             res = tlc_walks(wd, rep, "ctx", 1, depth, sd, mode="full",
